@@ -20,6 +20,52 @@ type c19Rec struct {
 	T time.Time `json:"t"`
 }
 
+// one record holding every interpretation at once (each field must keep its own logical type)
+type c19All struct {
+	D  time.Time `json:"d"`
+	MS time.Time `json:"ms"`
+	US time.Time `json:"us"`
+	NS time.Time `json:"ns"`
+	M2 time.Time `json:"m2"`
+}
+
+var c19all avro.Codec
+
+func c19checkAll(c *core.Ctx, r interface{ Uint64() uint64 }) {
+	if c19all == nil {
+		s, err := avro.SchemaFromString(`{"type":"record","name":"all","fields":[{"name":"d","type":{"type":"int","logicalType":"date"}},{"name":"ms","type":{"type":"long","logicalType":"timestamp-millis"}},{"name":"us","type":{"type":"long","logicalType":"timestamp-micros"}},{"name":"ns","type":"long"},{"name":"m2","type":{"type":"long","logicalType":"timestamp-millis"}}]}`)
+		if err == nil {
+			c19all, err = s.Codec(c19All{})
+		}
+		if err != nil {
+			c.Violate("build", "combined record: "+err.Error(), nil)
+			return
+		}
+	}
+	d := int64(int32(r.Uint64()>>40)) / 64
+	ms, us, ns, m2 := int64(r.Uint64()>>22)-(1<<40), int64(r.Uint64()>>12)-(1<<50), int64(r.Uint64()>>3)-(1<<59), int64(r.Uint64()>>22)-(1<<40)
+	var enc []byte
+	for _, v := range []int64{d, ms, us, ns, m2} {
+		enc = refavro.AppendLong(enc, v)
+	}
+	var rec c19All
+	c19rb.Reset(enc)
+	err := c19all.Read(c19rb, unsafe.Pointer(&rec))
+	c.Eval(1)
+	want := c19All{time.Unix(d*86400, 0), time.Unix(0, ms*1e6), time.Unix(0, us*1e3), time.Unix(0, ns), time.Unix(0, m2*1e6)}
+	if err != nil || !rec.D.Equal(want.D) || !rec.MS.Equal(want.MS) || !rec.US.Equal(want.US) || !rec.NS.Equal(want.NS) || !rec.M2.Equal(want.M2) {
+		c.Violate("long-decode", fmt.Sprintf("record with date/millis/micros/plain/millis fields (%d,%d,%d,%d,%d) decodes to %v (err %v), specification: %v", d, ms, us, ns, m2, rec, err, want), nil)
+		return
+	}
+	c19wb.Reset()
+	c19all.Write(c19wb, unsafe.Pointer(&want))
+	if string(c19wb.Bytes()) != string(enc) {
+		c.Violate("long-encode", fmt.Sprintf("record with date/millis/micros/plain/millis fields: wrote %x, the integers that decode back are %x", c19wb.Bytes(), enc), nil)
+		return
+	}
+	c.Count("combined-records", 1)
+}
+
 type c19codec struct {
 	name  string
 	codec avro.Codec
@@ -92,7 +138,9 @@ func c19checkDate(c *core.Ctx, cd avro.Codec, d int64) {
 		c.Count("date.pre1970", 1)
 	}
 	// write direction: midnight and a time within the day must both store d
-	for _, t := range []time.Time{want, want.Add(13*time.Hour + 7*time.Second)} {
+	// the stored day is a function of the instant, whatever Location the time.Time carries
+	for _, t := range []time.Time{want, want.Add(13*time.Hour + 7*time.Second), want.In(time.FixedZone("", 14*3600)), want.Add(20 * time.Hour).In(time.FixedZone("", 10*3600)),
+		want.Add(3 * time.Hour).In(time.FixedZone("", -11*3600)), want.Add(23*time.Hour + 59*time.Minute).In(time.FixedZone("", 5*3600+1800))} {
 		v, err := c19encode(cd, t)
 		if err != nil || v != d {
 			c.Violate("date-encode", fmt.Sprintf("time %s under logical date stores %d err=%v, want %d", t.Format(time.RFC3339), v, err, d), map[string]any{"days": d})
@@ -198,6 +246,9 @@ func runC19(c *core.Ctx, i int) {
 		}
 		c.Shape(fmt.Sprintf("date-%d", i))
 	default:
+		for k := 0; k < 5000; k++ {
+			c19checkAll(c, r)
+		}
 		for _, cc := range c19codecs[1:] {
 			if i == nDateChunks {
 				for _, b := range varintBoundaries() {
